@@ -126,7 +126,7 @@ def gen_family(name, grammars, with_pest=True, extra_main="", extra_mods=None):
 def sync_workspace():
     fams = sorted(f for f in os.listdir(os.path.join(HARNESS, "fam"))
                   if os.path.exists(os.path.join(HARNESS, "fam", f, "Cargo.toml"))) if os.path.isdir(os.path.join(HARNESS, "fam")) else []
-    members = ['"pest2json"', '"hcommon"'] + ['"fam/%s"' % f for f in fams]
+    members = ['"pest2json"', '"hcommon"', '"textrun"'] + ['"fam/%s"' % f for f in fams]
     text = """[workspace]
 resolver = "2"
 members = [%s]
